@@ -14,6 +14,7 @@ from pydiverse.common import Bool, Int64
 from pydiverse.transform._internal import errors
 from pydiverse.transform._internal.backend.table_impl import (
     TableImpl,
+    is_equi_join_pred,
     split_join_cond,
 )
 from pydiverse.transform._internal.backend.targets import (
@@ -1240,7 +1241,10 @@ def join(
     else:
         on = functools.reduce(operator.and_, on[1:], on[0])
 
-    if how == "full" and not all(pred.op == ops.equal for pred in split_join_cond(on)):
+    if how == "full" and not all(
+        is_equi_join_pred(pred, set(left._cache.cols.keys()), set(right._cache.cols.keys()))
+        for pred in split_join_cond(on)
+    ):
         raise ValueError("in a `full` join, only equality predicates can be used")
 
     for fn in on.iter_subtree_postorder():
